@@ -161,10 +161,10 @@ def run(ctx):
             for job, o in zip(jb, outs): account(ctx, hstats, job, o, None, backend, build, lb)
             judge(ctx, hstats, lb, backend + ' (second key set of the process)', build, final=True)
             ctx.hypotheses['%s/%s %d-bit as second key set of the process' % (backend, build, lb)] = summary(hstats)
-        # the same netlist semantics under a non-default parameter set with two mask polynomials (k = 2; the noise levels of the
+        # the same netlist semantics under a non-default parameter set with two mask polynomials (k = 2; bootstrapping-key noise 2^-30, key-switching noise of the
         # 80-bit set): every wire decrypts to the plaintext evaluation, errors below 3/64 (no stdev bound is claimed for this set)
         from props.c04 import A_BK, A_KS
-        sk2 = fmt([0, 500, 2, 2, 10, 8, 2, A_BK, A_KS, ctx.seed * 10 + 8])
+        sk2 = fmt([0, 500, 2, 2, 10, 8, 2, 1024, 26828084, ctx.seed * 10 + 8])
         r3 = vlib.random.Random(ctx.seed * 57 + 1)
         jk = [mkjob(r3, sk2, fam_adder(r3, 4), 0), mkjob(r3, sk2, fam_muxtree(r3, 3), 0), mkjob(r3, sk2, fam_chain(r3, 40), 1), mkjob(r3, sk2, fam_random(r3, 12, 40), 0)]
         if thorough: jk += [mkjob(r3, sk2, fam_layer(r3, 60), i % 2) for i in range(4)]
